@@ -14,9 +14,11 @@ import math
 import numpy as np
 from fractions import Fraction
 from .. import common
+from ..translator import py2lean
 from ..common import enc, ask, call
 
 LEVEL = "proof"
+PROP_FILES = ["PersimVerif/Props/C04.lean", py2lean.prop_file("weights")]
 RULE = ("one PRNG; imagers on NON-square grids (rx, ry in 1..7, rx != ry in 6 of 7 cases), pixel sizes dyadic and non-dyadic, "
         "whole-configuration scale 2^-10/1/2^10; diagrams of 0-6 points placed inside / exactly on mesh lines / outside / far "
         "outside / on the diagonal / duplicated, given as (b,d) with skew=True or pre-converted with skew=False; kernels: Gaussian "
@@ -30,7 +32,8 @@ ASSUMPTIONS = [
     "mesh `_bpnts/_ppnts` and `resolution` are taken from the imager (C12 proves their geometry); the model requires len(mesh) = resolution + 1",
     "NumPy slicing / broadcasting / += semantics as modelled (lists of lists, row-major); float rounding is outside the theorems (1e-12 / 1e-9 tolerances, exact on dyadic uniform cases)",
 ]
-TRUSTED = ["scipy.special.ndtr, scipy.integrate.quad/dblquad as independent oracles of the [T] streams"]
+TRUSTED = [py2lean.trusted_note("weights"),
+           "scipy.special.ndtr, scipy.integrate.quad/dblquad as independent oracles of the [T] streams"]
 
 TOL_ASM = 1e-12
 TOL_FAST = 1e-9
@@ -534,7 +537,13 @@ def property_fails(case, code_img, bpn, ppn, res, focus=None, budget=40):
     return None
 
 
+def pre_build(ctx):
+    """source translator (DESIGN.md 3.2): regenerate Generated/SrcWeights.lean from PERSIM_ROOT's source"""
+    py2lean.pre_build(ctx, ("weights",))
+
+
 def run(ctx):
+    py2lean.report_broken(ctx, PROP_FILES)
     r = ctx.rng
     n = ctx.n(3000, 30000)
     corpus = corpus_cases()
@@ -764,3 +773,4 @@ MANIFEST = {
             "Float rounding is outside the theorems.",
     "technique": "Lean 4 theorems (incl. Mathlib measure theory) over a hand-written model + differential correspondence + numerical integration tests",
 }
+MANIFEST["note"] += " " + py2lean.manifest_note("weights")
